@@ -44,6 +44,10 @@ type Config struct {
 	GSTBump bool
 	// Crashed validators never fire a timer and never receive a message.
 	Crashed []int
+	// Late: Search 1 also offers the round scenarios in which a leader message arrives AFTER the phase timeout that
+	// would have used it (stored, not acted on) and the rounds in which nothing fresh is delivered while somebody still
+	// collects votes; the state key then includes the stored leader messages (see lateConfigs).
+	Late bool
 }
 
 func (c Config) N() int { return len(c.Powers) }
@@ -592,6 +596,21 @@ func (w *World) StateKey() string {
 		// rounds (indexed by round, never read again; R0 election candidates kept across a
 		// NEW_COMMITTEE reset fail VRF verification against the new root height's seed).
 		fmt.Fprintf(&sb, "pqc%d/dse%d;", len(b.PartialQCs), len(b.ByzantineEvidence.DSE.Evidence))
+		if w.Cfg.Late {
+			// stored leader messages: on a correct tree those of finished rounds are never read again, but a tree that
+			// keeps them across a reset (or looks them up by round only) acts on them; states that differ in them must
+			// not be merged with the state "nothing arrived", or the search drops exactly the path that matters
+			var ps []string
+			for r, byPhase := range b.Proposals {
+				for ph, ms := range byPhase {
+					if len(ms) > 0 && ph != "ELECTION" {
+						ps = append(ps, fmt.Sprintf("%d%s%d", r, ph, len(ms)))
+					}
+				}
+			}
+			sort.Strings(ps)
+			sb.WriteString("st[" + strings.Join(ps, ",") + "];")
+		}
 	}
 	cs := []string{}
 	for _, c := range w.Certs {
